@@ -302,17 +302,23 @@ def fail(ctx, what, case, info, **more):
 def search_failing_input(ctx, A, B, M, op, line, code, model):
     """correspondence broke on (A,B,M): is the *property* violated on the real code?  definition first, then every law"""
     spec_case = {"kind": "spec", "A": A, "B": B, "M": M}
+    # the laws first, with the most telling instances up front (a far diagonal point, a far translation: what float32
+    # direction vectors break), then the comparison with the definition
+    sc = max([1.0] + [abs(x) for d in (A, B) for p in d for x in p])
+    base = {"A": A, "B": B, "M": M}
+    first = [dict(base, kind="diag", A2=[list(p) for p in A] + [[1e6 * sc, 1e6 * sc]], B2=[list(p) for p in B]),
+             dict(base, kind="translate", t=1e6 * sc), dict(base, kind="translate", t=-1e6 * sc)]
+    C = gen_dgm(ctx, 6)
+    for lc in first + laws_for(ctx, A, B, C, M):
+        ok, info = eval_case(lc)
+        if not ok:
+            fail(ctx, "sliced Wasserstein law `%s` fails on the real code" % lc["kind"], lc, info, correspondence=op, model=model)
+            return True
     ok, info = eval_case(spec_case)
     if not ok:
         fail(ctx, "sliced_wasserstein differs from the definition (average over the M directions of the 1-D transport cost)",
              spec_case, info, correspondence=op, model=model)
         return True
-    C = gen_dgm(ctx, 6)
-    for lc in laws_for(ctx, A, B, C, M):
-        ok, info = eval_case(lc)
-        if not ok:
-            fail(ctx, "sliced Wasserstein law `%s` fails on the real code" % lc["kind"], lc, info, correspondence=op, model=model)
-            return True
     ctx.violation("code and model of sliced_wasserstein differ but the definition and all laws hold on this input: code=%r model=%r"
                   % (code, model), {"correspondence": op, "line": line[:2000], "code": code, "model": model,
                                     "A": A, "B": B, "M": M}, found_input=False)
